@@ -4,6 +4,7 @@
 #include "galois/DistGalois.h"
 #include "galois/gstl.h"
 #include "galois/graphs/GluonSubstrate.h"
+#include "galois/graphs/GluonEdgeSubstrate.h"
 #include "galois/graphs/DistributedGraph.h"
 #include "galois/runtime/SyncStructures.h"
 
